@@ -25,6 +25,16 @@ EVID = os.path.join(ROOT, "evidence")
 REPLAY_DIR = os.path.join(EVID, "replay")
 
 
+def _repo_state():
+    """Revision of the tree the check ran against (the working tree of /repo, as imported)."""
+    try:
+        head = subprocess.run(["git", "-C", "/repo", "rev-parse", "HEAD"], capture_output=True, text=True, timeout=30).stdout.strip()
+        dirty = subprocess.run(["git", "-C", "/repo", "status", "--porcelain", "--", "sigma"], capture_output=True, text=True, timeout=30).stdout.strip()
+        return {"head": head, "uncommitted_changes_under_sigma": sorted(l[3:] for l in dirty.splitlines())}
+    except Exception as e:  # git not available: not fatal
+        return {"error": repr(e)}
+
+
 DEV_REPO = [None]  # development only, see run_property
 
 
@@ -328,6 +338,7 @@ def run_property(prop: str, tier: str, jobs: int, only=None, no_twin=False) -> i
             "selfchecks": len(sc),
             "notes": notes,
             "harness_errors": harness_errors,
+            "repo_state": _repo_state(),
             "trusted_base": ["CrossHair 0.0.110 proxy semantics", "z3 (z3-solver wheel)", "reference models under /verif/ref and in the harness module", "stubs listed in assumptions"],
         },
         "assumptions": list(getattr(mod, "ASSUMPTIONS", [])),
